@@ -13,6 +13,7 @@ static int ppre_pid[MAXO]; static int64_t ppre_prio[MAXO];
 #include "sf_calls.inc"
 #include "sf_script.inc"
 #include "sf_monitor.inc"
+static void drive(int cap);
 #include "sf_directed.inc"
 
 static void add_guard(struct cmb_resourceguard *g, int type, int obj) { GD[ngd].g = g; GD[ngd].type = type; GD[ngd].obj = obj; GD[ngd].nsnap = 0; ngd++; }
